@@ -7,7 +7,7 @@ import sys
 import time
 
 VERIF = os.path.dirname(os.path.dirname(os.path.abspath(__file__)))
-QUICK_TIMEOUT_MS = 120000
+QUICK_TIMEOUT_MS = int(os.environ.get('PYVC_TIMEOUT_MS', 120000))     # (override: experiments only)
 THOROUGH_TIMEOUT_MS = 300000
 
 
